@@ -7,6 +7,7 @@ import (
 	"errors"
 	"flag"
 	"fmt"
+	"io"
 	"math/rand"
 	"os"
 	"path/filepath"
@@ -16,6 +17,9 @@ import (
 	"time"
 
 	"google.golang.org/grpc"
+	"google.golang.org/grpc/metadata"
+
+	storagerpc "github.com/lindb/lindb/app/storage/rpc"
 
 	"github.com/lindb/lindb/coordinator/storage"
 	"github.com/lindb/lindb/models"
@@ -46,6 +50,10 @@ type fakeFamily struct{ tsdb.DataFamily }
 
 func (fakeFamily) TimeRange() timeutil.TimeRange { return timeutil.TimeRange{Start: 1000, End: 2000} }
 func (fakeFamily) FamilyTime() int64             { return 1000 }
+
+// the real ReplicaHandler builds the follower's local replicator when a stream starts (it is never stepped here)
+func (fakeFamily) AckSequence(int32, func(int64)) {}
+func (fakeFamily) Retain()                        {}
 
 type fakeStateMgr struct{ storage.StateManager }
 
@@ -106,33 +114,95 @@ type replClient struct {
 	faults *replFaults
 }
 
-func (c *replClient) Reset(_ context.Context, in *protoReplicaV1.ResetIndexRequest, _ ...grpc.CallOption) (*protoReplicaV1.ResetIndexResponse, error) {
+// the follower's RPC side is the REAL handler of the storage node (app/storage/rpc/replica.go, ReplicaHandler): the
+// harness only stands in for the write ahead log manager (it hands out the follower's partition) and for the grpc
+// transport (an in-process server stream whose context carries the metadata the leader's client context carries)
+type replFakeWAL struct {
+	replica.WriteAheadLog
+	f *followerNode
+}
+
+func (w replFakeWAL) GetOrCreatePartition(models.ShardID, int64, models.NodeID) (replica.Partition, error) {
+	return w.f.part, nil
+}
+
+type replFakeMgr struct {
+	replica.WriteAheadLogManager
+	f *followerNode
+}
+
+func (m replFakeMgr) GetOrCreateLog(string) replica.WriteAheadLog { return replFakeWAL{f: m.f} }
+
+func (c *replClient) handler() *storagerpc.ReplicaHandler {
+	return storagerpc.NewReplicaHandler(replFakeMgr{f: c.f})
+}
+
+func (c *replClient) Reset(ctx context.Context, in *protoReplicaV1.ResetIndexRequest, _ ...grpc.CallOption) (*protoReplicaV1.ResetIndexResponse, error) {
 	if c.faults.reset {
 		return nil, errors.New("injected: reset failed")
 	}
-	c.f.part.ResetReplicaIndex(in.AppendIndex)
-	return &protoReplicaV1.ResetIndexResponse{}, nil
+	return c.handler().Reset(ctx, in)
 }
 
-func (c *replClient) GetReplicaAckIndex(_ context.Context, _ *protoReplicaV1.GetReplicaAckIndexRequest, _ ...grpc.CallOption) (*protoReplicaV1.GetReplicaAckIndexResponse, error) {
+func (c *replClient) GetReplicaAckIndex(ctx context.Context, in *protoReplicaV1.GetReplicaAckIndexRequest, _ ...grpc.CallOption) (*protoReplicaV1.GetReplicaAckIndexResponse, error) {
 	if c.faults.ack {
 		return nil, errors.New("injected: get ack index failed")
 	}
-	return &protoReplicaV1.GetReplicaAckIndexResponse{AckIndex: c.f.part.ReplicaAckIndex()}, nil
+	return c.handler().GetReplicaAckIndex(ctx, in)
 }
 
-func (c *replClient) Replica(_ context.Context, _ ...grpc.CallOption) (protoReplicaV1.ReplicaService_ReplicaClient, error) {
+// the server end of one replica stream
+type replServerStream struct {
+	grpc.ServerStream
+	ctx context.Context
+	in  chan *protoReplicaV1.ReplicaRequest
+	out chan *protoReplicaV1.ReplicaResponse
+	// closed at the first Recv: the handler finished its set-up (partition, local replicator of the follower)
+	ready     chan struct{}
+	readyOnce sync.Once
+}
+
+func (s *replServerStream) Context() context.Context { return s.ctx }
+func (s *replServerStream) Recv() (*protoReplicaV1.ReplicaRequest, error) {
+	s.readyOnce.Do(func() { close(s.ready) })
+	r, ok := <-s.in
+	if !ok {
+		return nil, io.EOF
+	}
+	return r, nil
+}
+func (s *replServerStream) Send(r *protoReplicaV1.ReplicaResponse) error {
+	s.out <- r
+	return nil
+}
+
+func (c *replClient) Replica(ctx context.Context, _ ...grpc.CallOption) (protoReplicaV1.ReplicaService_ReplicaClient, error) {
 	if c.faults.connect {
 		return nil, errors.New("injected: create stream failed")
 	}
-	return &replStream{c: c, epoch: c.f.epoch}, nil
+	md, _ := metadata.FromOutgoingContext(ctx)
+	ss := &replServerStream{ctx: metadata.NewIncomingContext(context.Background(), md),
+		in: make(chan *protoReplicaV1.ReplicaRequest), out: make(chan *protoReplicaV1.ReplicaResponse), ready: make(chan struct{})}
+	st := &replStream{c: c, epoch: c.f.epoch, ss: ss, done: make(chan error, 1)}
+	h := c.handler()
+	go func() { st.done <- h.Replica(ss) }()
+	// nothing of the handler runs beside the driver: wait until it stands at its first Recv (or gave up)
+	select {
+	case <-ss.ready:
+	case err := <-st.done:
+		st.done <- err
+	}
+	return st, nil
 }
 
 type replStream struct {
 	grpc.ClientStream
-	c     *replClient
-	epoch int
-	resp  *protoReplicaV1.ReplicaResponse
+	c      *replClient
+	epoch  int
+	ss     *replServerStream
+	done   chan error
+	closed bool
+	resp   *protoReplicaV1.ReplicaResponse
 }
 
 func (s *replStream) Send(r *protoReplicaV1.ReplicaRequest) error {
@@ -142,10 +212,17 @@ func (s *replStream) Send(r *protoReplicaV1.ReplicaRequest) error {
 	if s.epoch != s.c.f.epoch {
 		return errors.New("stream broken: follower restarted")
 	}
-	idx, err := s.c.f.part.ReplicaLog(r.ReplicaIndex, r.Record)
-	s.resp = &protoReplicaV1.ReplicaResponse{ReplicaIndex: r.ReplicaIndex, AckIndex: idx}
-	if err != nil {
-		s.resp.Err = err.Error()
+	select {
+	case s.ss.in <- r:
+	case err := <-s.done:
+		s.done <- err
+		return fmt.Errorf("stream ended by the handler: %v", err)
+	}
+	select {
+	case s.resp = <-s.ss.out:
+	case err := <-s.done:
+		s.done <- err
+		return fmt.Errorf("stream ended by the handler: %v", err)
 	}
 	return nil
 }
@@ -156,7 +233,13 @@ func (s *replStream) Recv() (*protoReplicaV1.ReplicaResponse, error) {
 	}
 	return s.resp, nil
 }
-func (s *replStream) CloseSend() error { return nil }
+func (s *replStream) CloseSend() error {
+	if !s.closed {
+		s.closed = true
+		close(s.ss.in)
+	}
+	return nil
+}
 
 type replFactory struct {
 	rpc.ClientStreamFactory
